@@ -88,6 +88,7 @@ class ProgGen:
         self.counter = 0
         self.helpers = []        # {"name", "params", "ret", "text", "ast"}
         self.features = features or {"match", "loops", "helpers", "structs", "assign", "impure"}
+        self.shadow_p = 0.15 if "shadow" in self.features or features is None else 0.0
         self.stats = {}
 
     # ------------------------------------------------------------------ utilities
@@ -382,7 +383,11 @@ class ProgGen:
                     ["etuple", ty["name"], n, [s[1] for s in subs]], sum((s[2] for s in subs), []))
         if not top and r > 0.85:
             return ("_", ["id", "_"], [])
-        x = self.fresh()
+        if top and self.scope and self.rng.random() < self.shadow_p:
+            x = self.rng.choice(self.scope)["name"]        # shadows an existing binding
+            self.note("shadow")
+        else:
+            x = self.fresh()
         return (x, ["id", x], [(x, ty)])
 
     def refutable(self, ty, d=2):
@@ -627,7 +632,24 @@ class ProgGen:
         texts, asts = join_stmts(list(ss) + [(v.text, ["expr", v.ast])])
         return "\n    ".join(texts), asts
 
-    def program(self, n_params=None):
+    def fn_body_observed(self, params, d):
+        """statements only; the function returns the tuple of (up to 6 of) the variables visible at its end, so that
+        every effect of the statements is part of the result"""
+        self.scope = [{"name": n, "ty": t, "mut": m} for n, t, m in params]
+        ss = [self.stmt(d, False) for _ in range(self.rng.choice([2, 3, 4, 5]))]
+        visible = {}
+        for v in self.scope:
+            visible[v["name"]] = v
+        vs = list(visible.values())
+        self.rng.shuffle(vs)
+        vs = vs[:6] if len(vs) >= 2 else (vs + vs)[:2]
+        ret = {"k": "tuple", "ts": [v["ty"] for v in vs]}
+        v_text = "(" + ", ".join(v["name"] for v in vs) + ")"
+        v_ast = ["tuple", [["var", v["name"]] for v in vs]]
+        texts, asts = join_stmts(list(ss) + [(v_text, ["expr", v_ast])])
+        return "\n    ".join(texts), asts, ret
+
+    def program(self, n_params=None, observe_all=False):
         # helpers first (a helper may call the helpers defined before it)
         self.helpers = []
         if "helpers" in self.features:
@@ -640,7 +662,10 @@ class ProgGen:
         n_params = n_params or self.rng.choice([1, 1, 2, 3])
         params = [(self.fresh("a"), self.small_ty(self.rng.choice([0, 1, 2])), self.rng.random() < 0.3) for _ in range(n_params)]
         ret = self.small_ty(self.rng.choice([0, 1, 2]))
-        body_text, body_ast = self.fn_body(params, ret, self.max_depth)
+        if observe_all:
+            body_text, body_ast, ret = self.fn_body_observed(params, self.max_depth)
+        else:
+            body_text, body_ast = self.fn_body(params, ret, self.max_depth)
         # every private function must be used: call the unused ones up front
         pre_t, pre_a = [], []
         self.scope = [{"name": n, "ty": t, "mut": m} for n, t, m in params]
